@@ -155,12 +155,18 @@ func VerifC14BitDepthInt64(v int64) uint { return bitDepthInt64(v) }
 // executor and the field API can be driven with every (base, depth) combination; fields created
 // through the API always start with base 0.
 func VerifC14ForceBSI(f *Field, base int64, depth uint) error {
-	bsig := f.bsiGroup(f.name)
+	f.mu.Lock()
+	defer f.mu.Unlock()
+	// Look the group up in place: Field.bsiGroup hands out a copy.
+	var bsig *bsiGroup
+	for _, b := range f.bsiGroups {
+		if b.Name == f.name {
+			bsig = b
+		}
+	}
 	if bsig == nil {
 		return ErrBSIGroupNotFound
 	}
-	f.mu.Lock()
-	defer f.mu.Unlock()
 	bsig.Base = base
 	bsig.BitDepth = depth
 	f.options.Base = base
